@@ -113,6 +113,6 @@ Proof. vm_compute. repeat split; reflexivity. Qed.
 Example C40_zlp_bad_crc :
   drx_model_events 11
     [C40_w 4160486395 15; C40_w 8 0; C40_w 0 0; C40_w 0 0; C40_w 268461230 0; C40_w 4150025308 15; C40_w 305419896 0;
-     C40_w 4160618749 15; C40_idle; C40_idle]
+     C40_w 4160617981 15; C40_idle; C40_idle]
   = [Report (sp_hdr [8; 0; 0; 268461230]) false].
 Proof. vm_compute. reflexivity. Qed.
